@@ -907,7 +907,7 @@ func (pe *pathEnum) walk(stack []inlFrame, b *ssa.BasicBlock, from int, items []
 				args := call.Call.Args
 				for k, p := range callee.Params {
 					if k < len(args) {
-						pe.bind(p, cv(args[k]))
+						pe.bind(p, args[k]) // the raw argument: conversions such as string(x) stay visible to the printers
 					}
 				}
 				pe.inlined[callee] = true
